@@ -426,7 +426,7 @@ PROPERTIES = {
                  "these. Stop points: builder dropped, runtime dropped before run, stepped n events and abandoned, stepped and finished, event limit (EVERY "
                  "prefix 0..24 for a share of the small models), time limit, completion, error exit. Oracle: after dropping whatever was returned every token "
                  "was dropped exactly once (none alive, none twice), the statics are clean, and a fixed follow-up simulation reproduces the trace it has in a "
-                 "fresh process and is itself leak free. Non-trivial = case with >= 5 tokens that checked clean; distinct = hash of the case."),
+                 "fresh process (messages handled and the wake-ups of a task that sleeps across message arrivals) and is itself leak free. Non-trivial = case with >= 5 tokens that checked clean; distinct = hash of the case."),
         "exhaustive_part": "every event-count limit 0..24 plus completion for one in eight small models",
         "assumptions": ["tokens observe user-visible values; internal allocations without user values (timer slot / queue cycle) are out of the statement",
                         "Miri runs with leak checking off (verdict about UB only) and without an aliasing model"],
